@@ -46,9 +46,9 @@ def trees(draw):
                 # the same written name may be used by includers that live in different directories (each resolves to its own
                 # neighbour); -i files and everything included from below a -i directory keep unique names (write_tree enforces
                 # it) so that no include line ever has two documented candidates by accident
-                if child.place in ('same', 'sub') and draw(st.booleans()):   # (a name with `..` is also searched relative to each -i directory)
+                if child.place in ('same', 'sub') and draw(st.integers(0, 9)) < 7:   # (a name with `..` is also searched relative to each -i directory)
                     child.name = draw(st.sampled_from(['body.asm', 'defs.asm']))
-                child.form = draw(st.integers(0, 13))    # 7..13: the written name gets a leading ./
+                child.form = draw(st.integers(0, 17))    # 9..17: the written name gets a leading ./
                 if ambiguous[0] and child.place == 'same' and child.name.startswith('f') and all(e[0] == 'line' for e in child.entries):
                     ambiguous[0] = False
                     child.alt_lines = [e[1] for e in child.entries] + ['addi x0, x0, 0']
@@ -174,7 +174,15 @@ def write_tree(node, directory, rootdir, names_used, stats, depth=0, anc_dirs=()
             names_used.add(dpath)
             stats['ancestor_decoys'] = stats.get('ancestor_decoys', 0) + 1
         body = write_tree(child, cdir, rootdir, names_used, stats, depth + 1, anc_dirs + (directory,))
-        with open(path, 'w', encoding='utf-8') as f:
+        real = path
+        if env.chash('link' + path[len(rootdir):])[0] % 5 == 0:
+            # the included file is a symbolic link into a store directory: ITS includes are still looked up next to the link
+            # (files are searched relative to the file containing the include - the name it was reached by)
+            stats['symlinked_files'] = stats.get('symlinked_files', 0) + 1
+            os.makedirs(os.path.join(rootdir, 'store'), exist_ok=True)
+            real = os.path.join(rootdir, 'store', 'obj%d_%s' % (stats['symlinked_files'], os.path.basename(path)))
+            os.symlink(real, path)
+        with open(real, 'w', encoding='utf-8') as f:
             f.write(body)
         if not under_inc and child.place in ('same', 'sub') and env.chash(path[len(rootdir):])[0] % 3 == 0:
             # a file whose name differs from the written one only in CASE sits in a -i directory: not the file that was asked for
@@ -203,11 +211,11 @@ def write_tree(node, directory, rootdir, names_used, stats, depth=0, anc_dirs=()
             else:
                 child.alt_lines = None
         form = child.form
-        if form >= 7:
+        if form >= 9:
             # ./name, ./sub/name, ./../name: the same file for every directory the name is looked up in
             written = './' + written
             stats['dot_slash_names'] = stats.get('dot_slash_names', 0) + 1
-        line = ['include %s', 'include "%s"', "include '%s'", 'include %s  # pulled in', 'include   %s', 'include %s# glued comment', 'include "%s"#glued'][form % 7] % written
+        line = ['include %s', 'include "%s"', "include '%s'", 'include %s  # pulled in', 'include   %s', 'include %s# glued comment', 'include "%s"#glued', 'include "%s"   # quoted, then a comment', "include '%s' \t"][form % 9] % written
         child.include_line = line
         text.append(line)
         stats['names'].append(os.path.basename(path))
@@ -328,6 +336,8 @@ def judge(case, res):
         res.count('trees_with_mixed_case_include_names')
     if stats.get('no_final_newline'):
         res.count('trees_with_a_file_without_final_newline')
+    if stats.get('symlinked_files'):
+        res.count('trees_with_a_symlinked_include_file')
     if any(len(v) > 1 for v in stats.get('written', {}).values()):
         res.count('trees_where_one_include_text_means_different_files')
     if len(set(stats['names'])) < len(stats['names']):
@@ -365,6 +375,40 @@ def shard(n, s, shrink=False):
     return res
 
 
+def cwd_only_job():
+    """A name that exists ONLY in the working directory (and in an unrelated directory) is not an include candidate: files are
+    searched next to the including file and in the -i directories.  include and include_bytes, API and command line."""
+    a = env.load_asm()
+    res = env.Result()
+    with env.scratch_dir('bbv-c14w-') as root:
+        for d in ('proj/src', 'inc', 'work', 'work/sub'):
+            os.makedirs(os.path.join(root, d))
+        with open(os.path.join(root, 'work', 'only_here.asm'), 'w') as f:
+            f.write('addi x0, x0, 0\n')
+        with open(os.path.join(root, 'work', 'only_here.bin'), 'wb') as f:
+            f.write(b'1234')
+        with open(os.path.join(root, 'inc', 'fine.asm'), 'w') as f:
+            f.write('addi x1, x1, 1\n')
+        for k, line in enumerate(['include only_here.asm', 'include_bytes only_here.bin', 'include "only_here.asm"  # c']):
+            main = os.path.join(root, 'proj', 'src', 'm%d.asm' % k)
+            with open(main, 'w') as f:
+                f.write('include fine.asm\n' + line + '\naddi x2, x2, 2\n')
+            for mode in ('api', 'cli'):
+                res.evaluations += 1
+                res.nontrivial_count += 1
+                with env.cwd(os.path.join(root, 'work')):
+                    if mode == 'api':
+                        r = progcheck.assemble(a, main, False, include_dirs=[os.path.join(root, 'inc')])
+                        accepted = r[0] == 'ok'
+                    else:
+                        code = run_cli(a, ['-i', os.path.join(root, 'inc'), '-o', os.path.join(root, 'o.bin'), main], os.path.join(root, 'work'))
+                        accepted = code == 0
+                if accepted:
+                    res.fail('include:cwd_only', '%r is accepted (%s) although the name exists only in the working directory, not next to the including file nor in a -i directory' % (line, mode),
+                             {'kind': 'cwd_only'})
+    return res
+
+
 def run(tier):
     chk = env.Check(PROP, tier)
     chk.rule = ('Hypothesis file trees: a generated program cut into nested include files (depth <= 4; files in the same directory, a '
@@ -374,15 +418,23 @@ def run(tier):
                 'path absolute or relative; oracle: own splicer -> flat text assembled from a string: bytes, labels and constants '
                 'equal (either candidate when a name is ambiguous). non-trivial = accepted tree with depth >= 2, a -i file, or decoys '
                 'in the cwd; distinct by (tree, cwd, mode). Trees also contain include_bytes lines (same name, different file per directory), '
-                'files included twice, and the cwd may be one of the -i directories')
+                'files included twice, symlinked include files, and the cwd may be one of the -i directories; plus: a name that exists only in the working directory is not a candidate')
     per = max(1, N[tier] // env.NPROC)
     chk.merge(env.run_shards(shard, [(per, s, tier == 'thorough') for s in range(env.NPROC)]))   # shrinking file trees is slow: thorough only
+    chk.merge(env.run_shards(cwd_only_job, [()]))
     return chk.finish()
 
 
 def replay(path):
     with open(path) as f:
         body = json.load(f)
+    if body['case'].get('kind') == 'cwd_only':
+        r = cwd_only_job()
+        if r.failures:
+            print('VIOLATION property=%s replay=%s' % (PROP, path))
+            return env.EXIT_VIOLATION
+        print('replay holds: %s' % path)
+        return env.EXIT_OK
     c = body['case']
     case = {'root': _load(c['tree']), 'cwd': c['cwd'], 'main_rel': c['main_rel'], 'compress': c['compress'], 'cli': c.get('cli', False)}
     try:
